@@ -394,13 +394,18 @@ impl<T: Engine> FftFilterFloat<T> {
 impl<T: Engine> crate::block::BlockEOF for FftFilterFloat<T> {
     fn eof(&mut self) -> bool {
         use crate::stream::StreamWait;
+        // Nobody left to read the output: nothing more to do, whatever the
+        // input side looks like. (The waits this block hands the runner hide
+        // the streams' own "never" answers, so this is the only place where
+        // the departure of the reader can be reported.)
+        if self.dst.closed() {
+            return true;
+        }
         // The outer input having ended is not enough: samples can still be on
         // their way through the inner filter, waiting for output space. They
-        // are lost if the block is retired now. (Unless nobody is left to
-        // read them.)
+        // are lost if the block is retired now.
         let in_flight = |s: &ReadStream<Complex>| s.read_buf().map(|(b, _)| !b.is_empty()).unwrap_or(false);
-        self.src.eof()
-            && (self.dst.closed() || !(in_flight(&self.complex.src) || in_flight(&self.inner_out)))
+        self.src.eof() && !(in_flight(&self.complex.src) || in_flight(&self.inner_out))
     }
 }
 
